@@ -263,6 +263,43 @@ def judge_one(ctx, prefix, prog, family, w, tname, base_canon=None):
     return net
 
 
+def judge_incremental(ctx, prefix, prog, family, w):
+    """the same Schematic object translated while it is being built: first with a part of the symbols, then completed"""
+    from CircuitCalculator.SimpleCircuit import Elements as elm
+    from CircuitCalculator.SimpleCircuit.DiagramTranslator import circuit_translator
+    import copy
+    n = len(prog['symbols'])
+    if n < 4:
+        return
+    k = max(2, n // 2)
+    d = elm.Schematic(unit=prog['unit'], show=False)
+    first = call(_add_symbols, d, prog, prog['symbols'][:k])
+    if raised(first):
+        return
+    call(circuit_translator, d)                              # intermediate translation; its result may be anything (partial drawing)
+    rest = call(_add_symbols, d, prog, prog['symbols'][k:])
+    if raised(rest):
+        return
+    d._vmon_placed = first + rest
+    if not D.geometry_ok(prog, d):
+        return
+    circ = call(circuit_translator, d)
+    ctx.count('incremental_drawings')
+    net = D.intended_netlist(prog)
+    if raised(circ):
+        ctx.violation(f'{prefix}/incremental/translation-raised/{circ.key}', f'translating a drawing that had been translated at an earlier stage raised {circ.text}', {})
+        return
+    l2m = compare_structure(ctx, prefix + '/incremental', circ, net, 'incremental', rounding_boundary(prog))
+    if l2m is not None:
+        solve_and_compare(ctx, prefix + '/incremental', circ, net, l2m, family, w, 'incremental')
+
+
+def _add_symbols(d, prog, symbols):
+    sub = dict(prog); sub['symbols'] = symbols
+    tmp = D.build(sub, into=d)
+    return list(tmp._vmon_placed)
+
+
 def judge(case, ctx, prefix='C13'):
     prog, family, w = case['program'], case['family'], case['w']
     rng = random.Random(case['tseed'])
@@ -282,6 +319,8 @@ def judge(case, ctx, prefix='C13'):
         ('combined', D.reordered(rng, D.wires_split(rng, D.translated(D.rotated(prog, rng.randint(1, 3)), 4.44, -9.0)))),
     ]
     rng.shuffle(transforms)
+    if not rounding_boundary(prog) and well_separated(prog):
+        judge_incremental(ctx, prefix, prog, family, w)
     for tname, p2 in transforms[:3]:
         judge_one(ctx, prefix, p2, family, w, tname, base_canon)
         ctx.evaluated(repr((syms, min(nwires, 6), tname)), nt)
